@@ -390,6 +390,10 @@ func CheckMain(args []string) int {
 		for i := range jobs {
 			jobs[i].ID = i
 			jobs[i].DeadlineUnix = deadline.Unix()
+			if def.BFS != nil && tier == "thorough" {
+				// schedule jobs and explicit-state searches share the budget: the jobs get the first half at most
+				jobs[i].DeadlineUnix = start.Add(time.Duration(secs) * time.Second / 2).Unix()
+			}
 		}
 		// VERIF_SEED only permutes the order in which jobs are handed out
 		if seed != 0 {
